@@ -11,8 +11,8 @@ pub fn slot_box(slot: i64, conf_milli: i64) -> Universal2DBox {
     let c = conf_milli as f32 / 1000.0;
     match slot {
         1 => Universal2DBox::new_with_confidence(100.0, 100.0, None, 0.5, 80.0, c),
-        2 => Universal2DBox::new_with_confidence(600.0, 400.0, Some(0.7), 1.5, 40.0, c),
-        3 => Universal2DBox::new_with_confidence(1200.0, 900.0, None, 1.0, 50.0, c),
+        2 => Universal2DBox::new_with_confidence(600.0, 400.0, Some(-0.7), 1.5, 40.0, c),
+        3 => Universal2DBox::new_with_confidence(1200.0, 900.0, Some(0.9), 1.0, 50.0, c),
         4 => Universal2DBox::new_with_confidence(300.0, 1500.0, Some(2.0), 0.8, 60.0, c),
         o => panic!("slot {}", o),
     }
@@ -548,6 +548,13 @@ pub fn cfg_from_opts(opts: &Opts) -> Cfg {
         "maha" => PositionalMetricType::Mahalanobis,
         o => panic!("metric {}", o),
     };
+    if let Some(cs) = opts.get("constraints") {
+        // "gap:limit,gap:limit"
+        c.constraints = Some(cs.split(',').filter(|x| !x.is_empty()).map(|p| {
+            let (g, l) = p.split_once(':').expect("gap:limit");
+            (g.parse().unwrap(), l.parse().unwrap())
+        }).collect());
+    }
     c.pos_w = opts.f64("pos-w", 1.0 / 20.0) as f32;
     c.vel_w = opts.f64("vel-w", 1.0 / 160.0) as f32;
     c.min_votes = opts.usize("min-votes", 1);
